@@ -193,8 +193,9 @@ def lastByBytes : List (SKey × Val) → Option (SKey × Val)
     | none => some x
     | some y => if bytesLt (encode x.1) (encode y.1) then some y else some x
 
-/-- first dot-component of a field path -/
-def fieldGraph (f : String) : String := (f.splitOn ".").headD ""
+/-- first dot-component of a field path: `strings.Split(f, ".")[0]` in deleteGraphIndex — the
+    characters before the first '.', the whole string when there is none. -/
+def fieldGraph (f : String) : String := String.ofList (f.toList.takeWhile (· != '.'))
 
 def addElems (s : KState) (g : String) (xs : List ElemIn) : KState × Res :=
   if !hasGraph s g then (s, .err) else
